@@ -373,12 +373,17 @@ func (m *memoryEvictor) getSortedBEPodInfos(evictionPolicy string, thresholdConf
 			Pod:        pod,
 			MemoryUsed: int64(podMetricMap[string(pod.UID)]),
 		}
+		// an invalid annotation counts as the implicit 0, as in the priority based lists
+		info.EvictionPriority, _ = extension.GetPodEvictionPriority(pod)
 		bePodInfos = append(bePodInfos, info)
 	}
 
 	sort.Slice(bePodInfos, func(i, j int) bool {
 		// TODO: https://github.com/koordinator-sh/koordinator/pull/65#discussion_r849048467
-		// compare priority > podMetric > name
+		// compare eviction priority > priority > podMetric > name
+		if bePodInfos[i].EvictionPriority != bePodInfos[j].EvictionPriority {
+			return bePodInfos[i].EvictionPriority < bePodInfos[j].EvictionPriority
+		}
 		if bePodInfos[i].Pod.Spec.Priority != nil && bePodInfos[j].Pod.Spec.Priority != nil && *bePodInfos[i].Pod.Spec.Priority != *bePodInfos[j].Pod.Spec.Priority {
 			return *bePodInfos[i].Pod.Spec.Priority < *bePodInfos[j].Pod.Spec.Priority
 		}
